@@ -297,6 +297,8 @@ class ApiMergeStoreHandler(NbdimeHandler, APIHandler):
         content = nbformat.writes(merged_nb)
         if not content.endswith(u'\n'):
             content += u'\n'
+        # (text that cannot be encoded, e.g. a lone surrogate, fails here)
+        content.encode('utf8')
         with io.open(path, 'w', encoding='utf8') as f:
             f.write(content)
         self.finish()
